@@ -35,6 +35,7 @@ Inductive mop :=
 Inductive ccase :=
 | CPlan (d : db) (inputs : list N) (steps : list steprec) (ports : list (N * N)) (out_names : list N)
         (b : bobs) (m : option mres) (step_ids : list N)
+        (inj : option (list (N * list N)))   (* per mapper port: the tokens the real _inject_tokens put into it *)
 | CMapper (ops : list (mop * mres))
 | CEngine (evs : list (db * list N * bobs)) (reruns : list (list N)).
    (* a real recovered run: for every recovery that was planned, the provenance table dumped from the real database
@@ -81,10 +82,14 @@ Definition conflict_free (info : list (N * pinfo)) : bool :=
 
 Definition plan_mapper_ok (order : list node -> list node) (dag : graph) (info : list (N * pinfo))
   (steps : list steprec) (ports : list (N * N)) (out_names : list N) (m : option mres) (sids : list N)
-  : bool :=
+  (inj : option (list (N * list N))) : bool :=
   match create_graph_mapper order dag info, m with
   | Some (inl mp), Some (MOk ob) =>
       mobs_ok mp ob && same_set N.eqb (get_step_ids mp steps ports out_names) sids
+      && match inj with
+         | Some l => same_set nl_eqb (map (fun kv => (fst kv, injected_tokens mp (fst kv))) (m_port_tokens mp)) l
+         | None => true
+         end
   | Some (inr e), Some (MErr e') => merr_eqb e e'
   | _, _ => false
   end.
@@ -127,7 +132,7 @@ Definition check_case (c : ccase) : bool :=
   | CEngine evs reruns =>
       forallb (fun e => build_ok (fst (fst e)) (snd (fst e)) (snd e)) evs
       && forallb (fun ids => existsb (fun t => mem t (permitted_tokens evs)) ids) reruns
-  | CPlan d inputs steps ports out_names b m sids =>
+  | CPlan d inputs steps ports out_names b m sids inj =>
       match build_graph d inputs, b with
       | BOk dag info, BObsOk nodes edges avail =>
           same_set N.eqb (get_nodes dag) nodes
@@ -135,8 +140,8 @@ Definition check_case (c : ccase) : bool :=
           && same_set nn_eqb (flip_pairs (edges_of (gpred dag))) edges
           && same_set nb_eqb (map (fun kv => (fst kv, i_avail (snd kv))) info) avail
           && (negb (conflict_free info)
-              || (plan_mapper_ok (fun l => l) dag info steps ports out_names m sids
-                  && plan_mapper_ok (@rev node) dag info steps ports out_names m sids))
+              || (plan_mapper_ok (fun l => l) dag info steps ports out_names m sids inj
+                  && plan_mapper_ok (@rev node) dag info steps ports out_names m sids inj))
       | BErr, BObsErr => true
       | _, _ => false
       end
